@@ -718,7 +718,7 @@ class DAG(nx.DiGraph):
         Principles and Techniques' - Koller and Friedman
         Page 75 Algorithm 3.1
         """
-        if observed:
+        if observed is not None:
             if isinstance(observed, set):
                 observed = list(observed)
 
